@@ -298,7 +298,7 @@ def decorate(ck, tok, force_plain=False):
 
 def gen_structures(ck):
     thorough = ck.tier == "thorough"
-    maxlen = 9 if thorough else 7
+    maxlen = 10 if thorough else 8
     for n in range(0, maxlen + 1):
         for seq in itertools.product("LBE", repeat=n):
             d = 0
@@ -307,7 +307,7 @@ def gen_structures(ck):
                 d += 1 if t == "B" else -1 if t == "E" else 0
                 okb = okb and d >= 0
             okb = okb and d == 0
-            reps = (4 if thorough else 3) if okb else (1 if n > 7 else 2 if thorough else 1)
+            reps = (4 if thorough else 3) if okb else 1
             for k in range(reps):
                 yield "seq", [decorate(ck, t, force_plain=(k == 0)) for t in seq]
 
@@ -315,7 +315,7 @@ def gen_structures(ck):
 def gen_random_deep(ck):
     thorough = ck.tier == "thorough"
     rng = ck.rng
-    for i in range(3000 if thorough else 400):
+    for i in range(60000 if thorough else 2500):
         maxd = rng.choice([2, 4, 8, 8, 40 if i % 50 == 0 else 8])
         n = rng.randint(5, 90)
         seq, d = [], 0
@@ -364,7 +364,7 @@ def gen_kinds(ck):
                         if rng.random() < 0.5:
                             tags = list(reversed(tags))
                         recs.append((rng.choice([-1, -1, -1, 0]), -1, p, tags))
-    for _ in range(20000 if thorough else 2500):
+    for _ in range(150000 if thorough else 12000):
         tags = [t for t in range(N_DEC + len(OTHER_NAMES)) if rng.random() < rng.choice([0.05, 0.15, 0.4])]
         rng.shuffle(tags)
         recs.append((-1, rng.choice([-1, -1, 0]), int(rng.random() < 0.5), tags))
@@ -429,7 +429,7 @@ def run():
         if any(role(d) != "L" or d[3] for d in descs):
             ck.nontriv((label, in_lit(descs)))
         # real save + reopen (only documents whose blocks are real SectionDividerSettings, i.e. no dummy payloads)
-        if psd is not None and label != "kinds" and all(not d[3] for d in descs) and (ck.tier == "thorough" or nreopen < 400):
+        if psd is not None and label != "kinds" and all(not d[3] for d in descs) and (nreopen < (20000 if ck.tier == "thorough" else 2500)):
             nreopen += 1
             try:
                 a, b, names = save_reopen_shape(psd)
